@@ -22,8 +22,8 @@ Definition runBasic G soft bx by_ bz nx ny nz ign nact tp ms xs ys zs :=
 (* result: accelerations, then the compensation array gravity_cs *)
 Definition runComp G soft ign nact tp ms xs ys zs :=
   let '(acc, cs) := grav_compensated FNum G soft ign nact tp (mkps ms xs ys zs) in flat acc ++ flat cs.
-Definition runJac G ms xs ys zs acc0 :=
-  flat (grav_jacobi FNum G (mkps ms xs ys zs) (unflat acc0)).
+Definition runJac G nact tp ms xs ys zs acc0 :=
+  flat (grav_jacobi FNum G nact tp (mkps ms xs ys zs) (unflat acc0)).
 Definition runMerc0 G soft dcrit nact tp ms xs ys zs :=
   flat (grav_merc0 FNum G soft (L_mercury FNum) (fnth dcrit) nact tp (mkps ms xs ys zs)).
 Definition runMerc1 G soft dcrit emap encN encNact tp ms xs ys zs acc0 :=
@@ -36,3 +36,5 @@ Definition runTrace1 G soft ks emap encN encNact tp ms xs ys zs acc0 :=
 Definition runL (d dcrit : float) : list float := [L_mercury FNum d dcrit].
 Definition runL4 (d dcrit : float) : list float := [L_C4 FNum d dcrit].
 Definition runL5 (d dcrit : float) : list float := [L_C5 FNum d dcrit].
+(* L_infinity with the two exp values as oracle inputs; also returns y so that the harness' own y is checked *)
+Definition runLinf (e1 e2 d dcrit : float) : list float := [L_infinity FNum e1 e2 d dcrit; L_arg FNum d dcrit].
